@@ -720,7 +720,7 @@ def run(ctx):
         for i, c in enumerate(cases):
             c["id"] = i
     else:
-        ncases = 1200 if not ctx.thorough else 12000
+        ncases = 600 if not ctx.thorough else 6000
         nmax = 12 if not ctx.thorough else 40
         cases = [gen_case(rng, i, nmax if (not ctx.thorough or i % 8 == 0) else 12) for i in range(ncases)]
     answers = run_driver([lean_input(c) for c in cases])
